@@ -260,11 +260,55 @@ func c10LoadFile(tmp string, content []byte, exists bool, leftovers map[string][
 	return c10Load(tmp)
 }
 
-type c10Save struct {
-	ops      []vos.Op
-	pre      []byte // cache file content before the save
-	preOK    bool
-	preFiles []string // names in the state dir before the save
+// c10Snap is the content of the regular files at the top level of the state directory.
+type c10Snap map[string][]byte
+
+func c10SnapDir(dir string) c10Snap {
+	sn := c10Snap{}
+	ents, _ := os.ReadDir(dir)
+	for _, e := range ents {
+		if e.Type().IsRegular() {
+			if data, err := os.ReadFile(filepath.Join(dir, e.Name())); err == nil {
+				sn[e.Name()] = data
+			}
+		}
+	}
+	return sn
+}
+
+func (a c10Snap) equal(b c10Snap) bool {
+	if len(a) != len(b) {
+		return false
+	}
+	for k, v := range a {
+		if w, ok := b[k]; !ok || string(v) != string(w) {
+			return false
+		}
+	}
+	return true
+}
+
+// c10Rec records what one operation did to the state directory.
+type c10Rec struct {
+	snaps       []c10Snap
+	legal       [][]byte // complete snapshots: the cache file before the operation and after every rename onto it
+	legalAbsent bool     // there was no cache file before the operation
+}
+
+func (r *c10Rec) add(sn c10Snap) {
+	if n := len(r.snaps); n > 0 && r.snaps[n-1].equal(sn) {
+		return
+	}
+	r.snaps = append(r.snaps, sn)
+}
+
+func c10Materialise(tmp string, sn c10Snap) {
+	os.RemoveAll(tmp)
+	os.MkdirAll(filepath.Join(tmp, "containers"), 0o755)
+	os.Chmod(tmp, 0o710)
+	for name, data := range sn {
+		os.WriteFile(filepath.Join(tmp, name), data, 0o644)
+	}
 }
 
 // c10Run executes a history, judging round trip and crash safety of every save.
@@ -284,21 +328,15 @@ func c10Run(w *mc.Worker, scratch string, trace []string, judge bool) (key strin
 		return "", viols
 	}
 	file := filepath.Join(dir, "cache")
-	var cur *c10Save
-	var saves []*c10Save
 	var other []string
-	// the very first save of a fresh state directory (made by SetActivePolicy) is hooked and judged like any other
+	// Crash model on the REAL state directory: a snapshot of its files is taken before and after every intercepted filesystem
+	// step of the operation being judged (steps the code makes through an *os.File it opened are seen as the difference
+	// between two snapshots). The very first save of a fresh directory (SetActivePolicy) is judged like any other.
+	var rec *c10Rec
 	defer func() { vos.Before, vos.After = nil, nil }()
 	vos.Before = func(op *vos.Op) {
-		if op.Kind == "create" && (cur == nil) && strings.HasPrefix(op.Path, file) {
-			cur = &c10Save{}
-			cur.pre, err = os.ReadFile(file)
-			cur.preOK = err == nil
-		}
-		if cur != nil {
-			cp := *op
-			cp.Data = append([]byte{}, op.Data...)
-			cur.ops = append(cur.ops, cp)
+		if rec != nil {
+			rec.add(c10SnapDir(dir))
 		}
 		// the cache file itself may only ever be replaced by rename
 		if judge && op.Path == file && op.Kind != "rename" {
@@ -306,23 +344,39 @@ func c10Run(w *mc.Worker, scratch string, trace []string, judge bool) (key strin
 		}
 	}
 	vos.After = func(op *vos.Op) {
-		if cur != nil && (op.Kind == "rename" || (op.Kind == "close" && false)) {
-			saves = append(saves, cur)
-			cur = nil
+		if rec != nil {
+			sn := c10SnapDir(dir)
+			rec.add(sn)
+			if op.Kind == "rename" && op.To == file {
+				if data, ok := sn["cache"]; ok {
+					rec.legal = append(rec.legal, data)
+				}
+			}
 		}
 	}
-	cch.SetActivePolicy("verif")
-	if cur != nil {
-		saves = append(saves, cur)
-		cur = nil
+	startRec := func() {
+		rec = &c10Rec{}
+		s0 := c10SnapDir(dir)
+		rec.add(s0)
+		if data, ok := s0["cache"]; ok {
+			rec.legal = append(rec.legal, data)
+		} else {
+			rec.legalAbsent = true
+		}
 	}
 	if judge && len(trace) == 1 {
-		for _, sv := range saves {
-			c10JudgeSave(w, tmp, file, sv, viol)
-		}
+		startRec()
+	}
+	cch.SetActivePolicy("verif")
+	if rec != nil {
+		rec.add(c10SnapDir(dir))
+		c10JudgeCrashes(w, tmp, rec, viol)
+		rec = nil
 	}
 	for i, op := range trace {
-		nBefore := len(saves)
+		if judge && i == len(trace)-1 && op != "restart" {
+			startRec()
+		}
 		p, msg, where := mc.Guard(func() {
 			if op == "restart" {
 				// the plugin process ends at this request boundary and a new one loads the state directory; nothing is
@@ -344,16 +398,11 @@ func c10Run(w *mc.Worker, scratch string, trace []string, judge bool) (key strin
 			vos.Before, vos.After = nil, nil
 			return "panic:" + strings.Join(trace[:i+1], ","), viols
 		}
-		if cur != nil { // a save that did not end in a rename of the temporary file
-			saves = append(saves, cur)
-			cur = nil
-		}
-		if !judge || i != len(trace)-1 {
-			continue
-		}
-		// --- crash points of every save made by the last operation
-		for _, sv := range saves[nBefore:] {
-			c10JudgeSave(w, tmp, file, sv, viol)
+		if rec != nil {
+			// --- crash points of everything the last operation did to the state directory
+			rec.add(c10SnapDir(dir))
+			c10JudgeCrashes(w, tmp, rec, viol)
+			rec = nil
 		}
 	}
 	vos.Before, vos.After = nil, nil
@@ -417,75 +466,118 @@ func c10DiffKey(a, b string) string {
 	return keys[0]
 }
 
-// c10JudgeSave enumerates every crash point of one save: before/after each primitive step and after every byte of each write.
-func c10JudgeSave(w *mc.Worker, tmp, file string, sv *c10Save, viol func(oracle, sig, format string, args ...any)) {
-	type fsState struct {
-		files map[string][]byte
-	}
-	st := fsState{files: map[string][]byte{}}
-	if sv.preOK {
-		st.files["cache"] = sv.pre
-	}
-	name := func(p string) string { return filepath.Base(p) }
-	// reference renderings: the previous snapshot and the new one
-	oldR, oldErr := c10LoadFile(tmp, sv.pre, sv.preOK, nil)
-	var newData []byte
-	for _, op := range sv.ops {
-		if op.Kind == "write" {
-			newData = op.Data
+// c10JudgeCrashes: the plugin may die at any point of the operation. Crash states are every recorded directory snapshot and,
+// between two consecutive snapshots, every sequential-overwrite prefix of each file whose content changed (new[:k] + old[k:]:
+// exactly what a killed write leaves, whether or not the file was truncated first). Every crash state must (1) load, (2) load
+// to a complete snapshot - the cache as it was before the operation or as some completed save left it -, and (3) be a state
+// the plugin can go on from: a new instance on that directory performs one more (shrinking) operation and the directory must
+// then load to that instance's own view.
+func c10JudgeCrashes(w *mc.Worker, tmp string, rec *c10Rec, viol func(oracle, sig, format string, args ...any)) {
+	legal := map[string]bool{}
+	if rec.legalAbsent {
+		if r, err := c10LoadFile(tmp, nil, false, nil); err == nil {
+			legal[r] = true
 		}
 	}
-	newR, newErr := c10LoadFile(tmp, newData, true, nil)
-	if oldErr != nil || newErr != nil {
-		viol("snapshot-does-not-load", "snapshot-does-not-load", "a complete snapshot does not load: old: %v new: %v", oldErr, newErr)
-		return
-	}
-	check := func(point string) {
-		w.Res.Evaluations++
-		w.Count("crash_points", 1)
-		content, exists := st.files["cache"]
-		left := map[string][]byte{}
-		for k, v := range st.files {
-			if k != "cache" {
-				left[k] = v
-			}
-		}
-		got, err := c10LoadFile(tmp, content, exists, left)
+	for _, data := range rec.legal {
+		r, err := c10LoadFile(tmp, data, true, nil)
 		if err != nil {
-			viol("crash-leaves-unloadable-cache", "crash-leaves-unloadable-cache", "crash %s: the state directory does not load: %v (cache file %d bytes)", point, err, len(content))
+			viol("snapshot-does-not-load", "snapshot-does-not-load", "a complete snapshot does not load: %v", err)
 			return
 		}
-		if got != oldR && got != newR {
-			viol("crash-leaves-partial-cache", "crash-leaves-partial-cache", "crash %s: the loaded cache is neither the previous nor the new snapshot", point)
+		legal[r] = true
+	}
+	check := func(point string, sn c10Snap, goOn bool) {
+		w.Res.Evaluations++
+		w.Count("crash_points", 1)
+		c10Materialise(tmp, sn)
+		got, err := c10Load(tmp)
+		if err != nil {
+			viol("crash-leaves-unloadable-cache", "crash-leaves-unloadable-cache", "crash %s: the state directory does not load: %v (cache file %d bytes)", point, err, len(sn["cache"]))
+			return
+		}
+		if !legal[got] {
+			viol("crash-leaves-partial-cache", "crash-leaves-partial-cache", "crash %s: the loaded cache is neither the previous nor a newly saved snapshot", point)
+			return
+		}
+		if !goOn {
+			return
+		}
+		// (3) go on from the crash state
+		w.Count("crash_points_continued", 1)
+		c10Materialise(tmp, sn)
+		var live string
+		var serr error
+		p, msg, _ := mc.Guard(func() {
+			n, err := NewCache(Options{CacheDir: tmp})
+			if err != nil {
+				serr = err
+				return
+			}
+			// a shrinking change first (the save that follows is shorter than anything left behind), then a plain save
+			if pods := n.GetPods(); len(pods) > 0 {
+				n.DeletePod(pods[0].GetID())
+			} else if ctrs := n.GetContainers(); len(ctrs) > 0 {
+				n.DeleteContainer(ctrs[0].GetID())
+			}
+			serr = n.Save()
+			live = c10Render(n)
+		})
+		if p || serr != nil {
+			viol("crash-state-not-continuable", "crash-state-not-continuable", "crash %s: a new instance on that directory cannot go on: %v %s", point, serr, msg)
+			return
+		}
+		if got2, err := c10Load(tmp); err != nil {
+			viol("save-after-crash-unloadable", "save-after-crash-unloadable", "crash %s, restart, one more change and a successful save: the state directory does not load: %v", point, err)
+		} else if got2 != live {
+			viol("save-after-crash-differs", "save-after-crash-differs", "crash %s, restart, one more change and a successful save: the reloaded cache differs from the saved one", point)
 		}
 	}
-	check("before the save")
-	for i, op := range sv.ops {
-		switch op.Kind {
-		case "create":
-			st.files[name(op.Path)] = []byte{}
-			check(fmt.Sprintf("after step %d (%s %s)", i+1, op.Kind, name(op.Path)))
-		case "write":
-			for k := 1; k <= len(op.Data); k++ {
-				st.files[name(op.Path)] = op.Data[:k]
-				// every byte offset: cheap when the temporary file is not the cache file itself
-				if name(op.Path) == "cache" || k == len(op.Data) || k == 1 || k == len(op.Data)/2 {
-					check(fmt.Sprintf("within step %d (write %s) at byte %d/%d", i+1, name(op.Path), k, len(op.Data)))
-				} else {
-					w.Count("crash_points_equivalent_not_reloaded", 1)
+	for i, sn := range rec.snaps {
+		leftovers := false
+		for name := range sn {
+			if name != "cache" {
+				leftovers = true
+			}
+		}
+		check(fmt.Sprintf("at step boundary %d", i), sn, leftovers)
+		if i+1 == len(rec.snaps) {
+			break
+		}
+		next := rec.snaps[i+1]
+		for name, nb := range next {
+			ob := sn[name]
+			if string(ob) == string(nb) || len(nb) == 0 {
+				continue
+			}
+			// a file that vanished between the two snapshots and had exactly this content was renamed onto this name: atomic
+			moved := false
+			for on, od := range sn {
+				if _, still := next[on]; !still && string(od) == string(nb) {
+					moved = true
 				}
 			}
-		case "rename":
-			if data, ok := st.files[name(op.Path)]; ok {
-				st.files[name(op.To)] = data
-				delete(st.files, name(op.Path))
+			if moved {
+				continue
 			}
-			check(fmt.Sprintf("after step %d (rename %s -> %s)", i+1, name(op.Path), name(op.To)))
-		case "close":
-			check(fmt.Sprintf("after step %d (close)", i+1))
-		case "open-for-write":
-			st.files[name(op.Path)] = []byte{}
-			check(fmt.Sprintf("after step %d (open %s for writing)", i+1, name(op.Path)))
+			for k := 1; k < len(nb); k++ {
+				// every byte offset for the cache file itself; first, middle and last offsets for any other file (their
+				// content cannot influence loading, only their length matters for what comes next)
+				if name != "cache" && k != 1 && k != len(nb)/2 && k != len(nb)-1 {
+					w.Count("crash_points_equivalent_not_reloaded", 1)
+					continue
+				}
+				mid := c10Snap{}
+				for n2, d2 := range sn {
+					mid[n2] = d2
+				}
+				part := append([]byte{}, nb[:k]...)
+				if len(ob) > k {
+					part = append(part, ob[k:]...)
+				}
+				mid[name] = part
+				check(fmt.Sprintf("within the write of %s between boundaries %d and %d at byte %d/%d", name, i, i+1, k, len(nb)), mid, true)
+			}
 		}
 	}
 }
